@@ -645,6 +645,14 @@ def sched_list(d):
     return [[k, [list(x) for x in v]] for k, v in d.items()]
 
 
+DUPLICATES = [
+    ["a = 1", "b = 2", "c = 3", "y = a + b + c", "z = a * b * c + a * b", "print(y, z, y)"],
+    ["def f(a, b, c):", "    return a + b + c + a", "x = f(1, 2, 3) + f(4, 5, 6) + 1", "print(x, x)"],
+    ["s = [1, 2, 3]", "t = s[0] + s[1] + s[2]", "for i in s:", "    t = t + i + i", "print(t)"],
+    ["x = 1", "if x == 1 or x == 2 or x == 3:", "    x = x + x + x", "    x = x - 1 - 1"],
+]
+
+
 def stream_end_to_end(ctx, impl, drv, judge, real_programs):
     rec = Recorder(impl)
     small = []
@@ -667,9 +675,14 @@ def stream_end_to_end(ctx, impl, drv, judge, real_programs):
     while done < n and tries < 5 * n:
         tries += 1
         rng = ctx.rng
-        base = list(rng.choice(small)) if small and rng.random() < 0.7 else [
-            "def f(n):", "    s = 0", "    for i in range(n):", "        if i % 2 == 0:", "            s = s + i",
-            "    return s", "print(f(10) + 1)"]
+        r0 = rng.random()
+        if tries <= 4 or r0 < 0.2:  # programs with several computed occurrences of one label on one line range
+            base = list(DUPLICATES[(tries - 1) % len(DUPLICATES)] if tries <= 4 else rng.choice(DUPLICATES))
+        elif small and r0 < 0.8:
+            base = list(rng.choice(small))
+        else:
+            base = ["def f(n):", "    s = 0", "    for i in range(n):", "        if i % 2 == 0:", "            s = s + i",
+                    "    return s", "print(f(10) + 1)"]
         text = "\n".join(base)
         try:
             p0 = quiet(impl.lp.get_program, text)
@@ -691,7 +704,34 @@ def stream_end_to_end(ctx, impl, drv, judge, real_programs):
         lines = code_lines
         isolated_at = []
         nonblank = [i for i, c in enumerate(base) if c.strip()]
-        for _ in range(rng.randint(1, 5)):
+        # DUPLICATE deletions aimed at DUPLICATE occurrences (same name, same line range), regex and SQL stages
+        mult = {}
+        for (nm, s_, e_) in clean:
+            mult[(nm, s_, e_)] = mult.get((nm, s_, e_), 0) + 1
+        regex_names = {x[0] for x in (seeded0 or [])}
+        dups = [k for k, v in mult.items() if v >= 2 and base[k[1] - 1].strip() and base[k[2] - 1].strip()]
+        dups_sql = [k for k in dups if k[0] not in regex_names]
+        ndup = 0
+        if dups and (tries <= 4 or rng.random() < 0.5):
+            for key in ([rng.choice(dups)] + ([rng.choice(dups_sql)] if dups_sql and rng.random() < 0.7 else [])):
+                nm, s_, e_ = key
+                if any(h["label"] == nm for l in lines for h in l["hints"]):
+                    continue
+                k = rng.choice([2, 2, mult[key], mult[key] + 1])
+                interleave = rng.random() < 0.4
+                for j in range(k):
+                    if s_ == e_:
+                        lines[s_ - 1]["hints"].append({"mark": "one-", "label": nm, "gap": rng.choice([0, 1])})
+                        if interleave and j == 0:
+                            lines[s_ - 1]["hints"].append({"mark": "one+", "label": nm, "plus": True})
+                    else:
+                        lines[s_ - 1]["hints"].append({"mark": "opn-", "label": nm})
+                        lines[e_ - 1]["hints"].append({"mark": "cls", "label": nm})
+                ndup += 1
+            ctx.dist("end-to-end:duplicate-deletion-cases", 1 if ndup else 0)
+            ctx.dist("end-to-end:duplicate-deletion-sql-stage", sum(1 for k in dups_sql if any(
+                h["label"] == k[0] for l in lines for h in l["hints"])))
+        for _ in range(rng.randint(0 if ndup else 1, 5)):
             kind = rng.random()
             if clean and kind < 0.6:
                 nm, s, e = rng.choice(clean)
@@ -755,10 +795,7 @@ def stream_end_to_end(ctx, impl, drv, judge, real_programs):
         ctx.dist("end-to-end:deletions", sum(len(v) for _, v in deletion))
         # (1) model of the stages on the recorded answers
         m = drv.call("c12.glue", deletion=deletion, addition=addition, computed=rec.computed, derived=rec.derived)
-        if sorted(m["labels"]) != sorted(labels):
-            ctx.cov["disagreements_checked"] += 1
-            ctx.broken.append("corr:end-to-end")
-            ctx.notes.append({"stream": "end-to-end", "src": src, "impl": sorted(labels)[:40], "model": sorted(m["labels"])[:40]})
+        stages_differ = sorted(m["labels"]) != sorted(labels)
         # (2) the property on the implementation's regex stage: C12_deletion_exact / untouched
         sc = drv.call("c12.spec_counts", deletion=deletion, addition=addition, computed=rec.computed)
         got_counts = {}
@@ -766,6 +803,19 @@ def stream_end_to_end(ctx, impl, drv, judge, real_programs):
             for (s, e, _p) in spans:
                 got_counts[(nm, s, e)] = got_counts.get((nm, s, e), 0) + 1
         exp_counts = {(nm, s, e): k for nm, s, e, k, _left in sc["rows"] if k > 0}
+        if stages_differ and got_counts == exp_counts:
+            # the regex stage is right; the deletion loop of some SQL stage is not: on the answers SQLite gave, the
+            # proved loop (C12_sql_stage_exact) returns other labels than the implementation
+            ctx.cov["disagreements_checked"] += 1
+            ml, il = sorted(m["labels"]), sorted(labels)
+            add_violation(ctx, {
+                "what": "labels of the SQL stages are not (derived - scheduled deletions left by the previous stages)",
+                "signature": None,
+                "replay": {"kind": "deletion-exact-sql-stage", "layout": lines, "src": src,
+                           "impl": [x for x in il if x not in ml][:8], "model": [x for x in ml if x not in il][:8],
+                           "spec": "c12.glue on the recorded answers (C12_sql_stage_exact)", "deletion": deletion,
+                           "how": "ProgramParser()(get_program(src))"},
+            })
         if got_counts != exp_counts:
             diff = sorted(set(got_counts.items()) ^ set(exp_counts.items()))[:10]
             ctx.violations.append({
